@@ -32,7 +32,7 @@ PROP = {
                   "after which both dispatchers have ended with Goodbye sent and received; proved by a measure: in such a state every enabled system "
                   "action keeps the state good and strictly decreases the measure, and a state in which none is enabled has both dispatchers ended "
                   "successfully (no table entry, outstanding request or frame can be left behind); the all-clients-dropped marker is never lost and a sent "
-                  "Goodbye is always in flight or received.",
+                  "Goodbye is always in flight or received. Port-number allocator (Props/C07c.v; Chmux/Alloc.v, chmux/port_allocator.rs): for every interleaving of try_allocate, allocate() futures (started, polled -- spuriously too --, dropped at any point) and released numbers, the numbers in use never exceed the limit, and in every state in which a number is free every pending allocate() has been woken (no lost wake-up); a woken future polled while a number is free takes it. Tied to the real allocator of a connection by component 71: the harness polls the futures with flag wakers and drops them between wake-up and poll; results, the set of futures woken by each release and the state after an executor-style drain are compared with the model; oracle: no future left pending while a number is free.",
     "level_note": "PARTIAL: the two-endpoint statement is now PROVED for the composed model (C07_both_terminate, C07_system_action_decreases, "
                   "C07_stuck_is_finished) and additionally exercised by the lifecycle stream. Remaining gaps: the termination theorem carries the alternative "
                   "'or a quantity error ends the connection' because data events queued before the drop are not bounded by credits in the endpoint model "
